@@ -439,7 +439,7 @@ func (w *World) Do(action string, captureMids bool) (res Result) {
 				res.Crashed = true
 				w.LoseMemory()
 			} else {
-				res.Panic = fmt.Sprintf("%v\n%s", r, shortStack())
+				res.Panic = addrRe.ReplaceAllString(fmt.Sprintf("%v | %s", r, shortStack()), "0x?")
 			}
 		}
 		res.Writes = w.S.Log
@@ -474,6 +474,8 @@ func (w *World) Do(action string, captureMids bool) (res Result) {
 	res.Requeue = rr.Requeue || rr.RequeueAfter > 0
 	return res
 }
+
+var addrRe = regexp.MustCompile(`0x[0-9a-fA-F]+\??`)
 
 func shortStack() string {
 	lines := strings.Split(string(debug.Stack()), "\n")
